@@ -29,7 +29,7 @@ import (
 
 // Protocol crash (C06, certificate mode): a data node restarted after a crash serves exactly the acknowledged state.
 //
-//	run  seed=<n> point=<name> k=<k> writes=<w> [delay=<ms> [slow=1]] [win=<n>] [engine=pebble|mem] [kill=<after acks>] [phase=2]
+//	run  seed=<n> point=<name> k=<k> writes=<w> [delay=<ms> [slow=1]] [win=<n>] [engine=pebble|mem] [kill=<after acks>] [phase=2|3]
 //	run3 seed=<n> point=<name> k=<k> writes=<w> victim=leader|follower [delay=<ms>] [win=<n>] [phase=2]     (proto_crash3.go)
 //
 // The parent starts a CHILD PROCESS (`zvh child-kvnode …`: a real single-replica node.KVNode with raft, WAL, snapshots
@@ -42,6 +42,9 @@ import (
 // until it serves, reads the full logical dump and answers ONE line (grammar: crashAnswerGrammar). With phase=2 the first
 // life has no crash point and is SIGKILLed after the last acknowledgement, the crash point is armed in the SECOND life
 // (points of the recovery path: restore from the checkpoint, WAL replay, WAL / snap file purge) and a third life is dumped.
+// With phase=3 there are TWO WRITING lives: the first is SIGKILLed somewhere in its third of the history, the node restarts
+// and goes on acknowledging writes on the reopened WAL and engine, the crash under test (point or SIGKILL) happens in this
+// second life and the third life is dumped (what the first life left unanswered is reported as optional, like an error reply).
 const crashAnswerGrammar = `
 answer := "R " sent " " died " " restart { ";" rec }
 died    := "point" (exit at the crash point) | "kill" (SIGKILL) ;  restart := "ok" | "failed"
@@ -189,6 +192,31 @@ func genCrash(rng *rand.Rand, tier string, emit func(string)) {
 				l += fmt.Sprintf(" win=%d", 2+rng.Intn(4))
 			}
 			emit(l)
+		}
+		// two writing lives (phase=3): SIGKILL in the first, the crash under test in the second (after further
+		// acknowledged writes on the reopened WAL / engine), dump of the third
+		n3 := 6
+		if tier == "thorough" {
+			n3 = 14
+		}
+		perWrite := []string{}
+		for _, p := range pts {
+			if k := crashPointKind(p); k == "perwrite" || k == "persnap" {
+				perWrite = append(perWrite, p)
+			}
+		}
+		for i := 0; i < n3; i++ {
+			w := 90 + rng.Intn(90)
+			if i%2 == 0 || len(perWrite) == 0 {
+				emit(fmt.Sprintf("run seed=%d point=kill k=1 writes=%d kill=%d win=%d phase=3", rng.Intn(1<<30), w, []int{0, 3 + rng.Intn(30)}[rng.Intn(2)], 1+rng.Intn(3)))
+			} else {
+				p := perWrite[rng.Intn(len(perWrite))]
+				k := 1 + rng.Intn(3)
+				if crashPointKind(p) == "perwrite" {
+					k = 5 + rng.Intn(40)
+				}
+				emit(fmt.Sprintf("run seed=%d point=%s k=%d writes=%d win=%d phase=3", rng.Intn(1<<30), p, k, w, 1+rng.Intn(3)))
+			}
 		}
 		// SIGKILL at arbitrary instants
 		nk := 4
@@ -610,7 +638,7 @@ func runCrashOnce(c *Ctx, seed int64, point string, k, n, delay, win, killAfter 
 	if err != nil {
 		return "err port " + err.Error()
 	}
-	env, env2 := "", ""
+	env, env2, env3 := "", "", ""
 	slow := delay < 0
 	if slow {
 		delay = -delay
@@ -623,6 +651,9 @@ func runCrashOnce(c *Ctx, seed int64, point string, k, n, delay, win, killAfter 
 	}
 	if phase == 2 {
 		env, env2 = "", env
+	}
+	if phase == 3 {
+		env, env3 = "", env
 	}
 	ch, err := startCrashChild(dir, ports[0], engine, env, "child-1.log")
 	if err != nil {
@@ -645,100 +676,153 @@ func runCrashOnce(c *Ctx, seed int64, point string, k, n, delay, win, killAfter 
 		return "err child-start " + l
 	}
 	ws := genCrashWrites(rng, n, win)
-	// replies are read by one goroutine; the sender keeps at most win writes unanswered
-	type rsp struct {
-		id    int
-		reply string
-	}
-	acks := make(chan rsp, n+8)
-	go func() {
-		for ch.out.Scan() {
-			f := strings.Fields(ch.out.Text())
-			if len(f) == 3 && f[0] == "a" {
-				id, _ := strconv.Atoi(f[1])
-				acks <- rsp{id, f[2]}
-			}
-		}
-		close(acks)
-	}()
 	sent, answered := 0, 0
 	died := "point"
-	alive := true
-	record := func(r rsp) {
-		w := ws[r.id-1]
-		w.reply = r.reply
-		if r.reply == "e" {
-			w.st, w.reply = "err", "-"
-		} else {
-			w.st = "ack"
+	// one life of the node: sends ws[sent:upto] (at most win unanswered), until the child dies at its crash point, is
+	// SIGKILLed (lifePoint "kill": after lifeKill acknowledgements plus a fraction of a write, or after the last
+	// acknowledgement), or everything is answered
+	runLife := func(ch *crashChild, logName string, upto int, lifePoint string, lifeKill int, lastLife bool) string {
+		// replies are read by one goroutine; the sender keeps at most win writes unanswered
+		type rsp struct {
+			id    int
+			reply string
 		}
-		answered++
-	}
-	killFrac := time.Duration(rng.Intn(3000)) * time.Microsecond
-loop:
-	for alive && (sent < n || answered < sent) {
-		for sent < n && sent-answered < win {
-			w := ws[sent]
-			args := []string{"w", strconv.Itoa(w.id), w.spec.Cmd, w.spec.Key}
-			if w.spec.A != "-" {
-				args = append(args, w.spec.A)
+		acks := make(chan rsp, n+8)
+		go func() {
+			for ch.out.Scan() {
+				f := strings.Fields(ch.out.Text())
+				if len(f) == 3 && f[0] == "a" {
+					id, _ := strconv.Atoi(f[1])
+					acks <- rsp{id, f[2]}
+				}
 			}
-			if w.spec.B != "-" {
-				args = append(args, w.spec.B)
+			close(acks)
+		}()
+		died = "point"
+		alive := true
+		record := func(r rsp) {
+			w := ws[r.id-1]
+			w.reply = r.reply
+			if r.reply == "e" {
+				w.st, w.reply = "err", "-"
+			} else {
+				w.st = "ack"
 			}
-			if _, err := ch.in.WriteString(strings.Join(args, " ") + "\n"); err != nil {
+			answered++
+		}
+		killFrac := time.Duration(rng.Intn(3000)) * time.Microsecond
+		answered0 := answered
+	loop:
+		for alive && (sent < upto || answered < sent) {
+			for sent < upto && sent-answered < win {
+				w := ws[sent]
+				args := []string{"w", strconv.Itoa(w.id), w.spec.Cmd, w.spec.Key}
+				if w.spec.A != "-" {
+					args = append(args, w.spec.A)
+				}
+				if w.spec.B != "-" {
+					args = append(args, w.spec.B)
+				}
+				if _, err := ch.in.WriteString(strings.Join(args, " ") + "\n"); err != nil {
+					alive = false
+					break loop
+				}
+				sent++
+				if lifePoint == "kill" && lifeKill > 0 && answered-answered0 >= lifeKill {
+					time.Sleep(killFrac)
+					died = "kill"
+					ch.kill()
+					alive = false
+					break loop
+				}
+			}
+			select {
+			case r, ok := <-acks:
+				if !ok {
+					alive = false
+					break loop
+				}
+				record(r)
+			case <-ch.dead:
 				alive = false
-				break loop
-			}
-			sent++
-			if point == "kill" && killAfter > 0 && answered >= killAfter {
-				time.Sleep(killFrac)
-				died = "kill"
+			case <-time.After(20 * time.Second):
+				c.Violation("harness", tag+": child silent for 20s "+tailFile(filepath.Join(dir, logName)))
 				ch.kill()
-				alive = false
-				break loop
+				return "err child-silent"
 			}
 		}
-		select {
-		case r, ok := <-acks:
-			if !ok {
-				alive = false
-				break loop
+		if alive {
+			// the point was not reached k times (or point=kill without an instant): SIGKILL after the last acknowledgement
+			if slow && lastLife {
+				c.Note("crash-slow-step:" + point)
+				time.Sleep(time.Duration(delay+250) * time.Millisecond) // let the slow step and what follows it (snapshot record) finish
+			} else if lifePoint != "kill" && phase != 2 {
+				c.Note("crash-point-not-reached:" + point)
 			}
+			died = "kill"
+			ch.kill()
+		} else {
+			select {
+			case <-ch.dead:
+			case <-time.After(10 * time.Second):
+				ch.kill()
+			}
+			ch.in.Close()
+		}
+		// acknowledgements that were already in the pipe when the child died
+		for r := range acks {
 			record(r)
-		case <-ch.dead:
-			alive = false
-		case <-time.After(20 * time.Second):
-			c.Violation("harness", tag+": child silent for 20s "+tailFile(filepath.Join(dir, "child-1.log")))
-			ch.kill()
-			return "err child-silent"
 		}
-	}
-	if alive {
-		// the point was not reached k times (or point=kill without an instant): SIGKILL after the last acknowledgement
-		if slow {
-			c.Note("crash-slow-step:" + point)
-			time.Sleep(time.Duration(delay+250) * time.Millisecond) // let the slow step and what follows it (snapshot record) finish
-		} else if point != "kill" && phase != 2 {
-			c.Note("crash-point-not-reached:" + point)
+		ch.outf.Close()
+		if died == "point" {
+			c.Note("crash-at:" + point)
 		}
-		died = "kill"
-		ch.kill()
-	} else {
-		select {
-		case <-ch.dead:
-		case <-time.After(10 * time.Second):
-			ch.kill()
+		return ""
+	}
+	if phase == 3 {
+		// TWO writing lives: the first is SIGKILLed at a random instant of its share of the history, the node restarts on
+		// the same directory and goes on serving writes; the crash under test happens in this second life and the THIRD
+		// life is dumped. What the first life left unanswered may or may not be in the log (reported like an
+		// error-answered write: optional), everything after it follows it in log order.
+		n1 := n/3 + rng.Intn(n/3+1)
+		if n1 < 1 {
+			n1 = 1
 		}
-		ch.in.Close()
+		k1 := 0
+		if rng.Intn(3) > 0 && n1 > 4 {
+			k1 = 2 + rng.Intn(n1-3)
+		}
+		if e := runLife(ch, "child-1.log", n1, "kill", k1, false); e != "" {
+			return e
+		}
+		for _, w := range ws[:sent] {
+			if w.st == "none" {
+				w.st, w.reply = "err", "-"
+			}
+		}
+		answered = sent
+		c.Note("crash-two-writing-lives")
+		ch2, err := startCrashChild(dir, ports[0], engine, env3, "child-1b.log")
+		if err != nil {
+			return "err start2 " + err.Error()
+		}
+		if l := ch2.line(20 * time.Second); !strings.HasPrefix(l, "ready") {
+			ch2.kill()
+			if point != "kill" && l == "" {
+				c.Note("crash-died-before-serving")
+				return crashRestart(c, dir, ports[0], engine, tag, point, ws[:sent], "point", win)
+			}
+			crashStartFailures++
+			c.Violation("restart-failed", fmt.Sprintf("%s: the node restarted after a SIGKILL does not serve (%s) %s", tag, l, tailFile(filepath.Join(dir, "child-1b.log"))))
+			return crashRestart(c, dir, ports[0], engine, tag, point, ws[:sent], "kill", win)
+		}
+		if e := runLife(ch2, "child-1b.log", n, point, killAfter, true); e != "" {
+			return e
+		}
+		return crashRestart(c, dir, ports[0], engine, tag, point, ws[:sent], died, win)
 	}
-	// acknowledgements that were already in the pipe when the child died
-	for r := range acks {
-		record(r)
-	}
-	ch.outf.Close()
-	if died == "point" {
-		c.Note("crash-at:" + point)
+	if e := runLife(ch, "child-1.log", n, point, killAfter, true); e != "" {
+		return e
 	}
 	if env2 != "" {
 		// second life with the crash point armed: dies while recovering (or comes up: the point was not on its way)
